@@ -1,10 +1,15 @@
 import CattrsModel.Sexp
 import CattrsModel.Dispatch.Model
+import CattrsModel.Dispatch.Locs
 /-!
 # Line-protocol operations of the dispatch model (driver only; no theorem depends on this file)
 
 `RUNHIST <facts> (<cfg>…) (<sop>…)`  → `(ok <reply>…)`, one reply per `<sop>`
 `SPEC <facts> <cfg> (<op>…) (<type key>…)` → `(ok <hook>…)`, `spec F cfg ops t` for every listed key
+`LOCS <facts> (<cfg>…) (<sop>…)` → `(ok (<single> <preds> <union> <direct> <lru>)… )`: the same store history on the
+  identity layer (`Locs.hrun` from `HStore.fresh`); for every converter of the final store the locations of its class
+  registry, predicate list, union registry, direct table and lru cache (theorem C18_no_shared_locations: no two
+  converters have one in common)
 
 * `<facts>` `((mro (<k> <class key>…)…) (holds (<pred id> <accepted key>…)…) (union <k>…) (newtype <k>…)
             (late <builtin id>…) (comps (<k> <component key>…)…) (rank (<k> <rank>)…))`
@@ -171,6 +176,14 @@ def dispatchHandle (op : String) (args : List Sexp) : Option Sexp :=
     | none, _, _ => some (err "bad-facts")
     | _, none, _ => some (err "bad-cfg")
     | _, _, none => some (err "bad-op")
+  | "LOCS", [fx, .list cfgs, .list sops] =>
+    match factsDataOfSexp fx, cfgs.mapM cfgOfSexp, sops.mapM sopOfSexp with
+    | some d, some cfgs, some sops =>
+      if !d.wf then some (err "facts-rank-not-decreasing")
+      else
+        let σ := Locs.hrun d.toFacts (Locs.HStore.fresh cfgs) sops
+        some (.list (.atom "ok" :: σ.convs.map (fun c => .list (c.locs.map ofNat))))
+    | _, _, _ => some (err "bad-args")
   | "SPEC", [fx, cfg, .list ops, .list keys] =>
     match factsDataOfSexp fx, cfgOfSexp cfg, ops.mapM opOfSexp, natList? keys with
     | some d, some cfg, some ops, some keys =>
